@@ -556,4 +556,30 @@ example : Remote.ttyRead [] ([97, 98, EOT, EOT] ++ (echoStatusLine ++ [Tty.CR]))
 example : (Files.run b64 { exText with ash := false, data := .text ('x' :: '\n' :: (Params.bashPrompt.map toChar) ++ ['\n']) }
     [] []).ret = .err ("death/1/" ++ Bytes.toHex Params.bashPrompt) := by decide +kernel
 
+/-! ### `tee` cannot open the file (state machine only)
+
+    `tee` prints `tee: <path>: Is a directory`, keeps reading, exits with status 1.  `write_bytes`
+    sees the message through its death string, stops sending, sends `^D` and `terminate0()` raises
+    `CommandFailure`; `write_text` (no death string since the repair) sends everything and
+    `terminate0()` raises `CommandFailure` — neither call hangs. -/
+
+def teeErr : Bytes := str "tee: /d: Is a directory\r\n"
+
+example :
+    let ps1 := Params.bashPrompt
+    let d : Bytes := [1, 2, 3]
+    let a1 := Tty.echo false (b64TeeLine (str "/d") ++ [13]) ++ teeErr
+      ++ Tty.echo false ((chunksOf Params.b64LineLen (b64enc d)).flatMap (· ++ [13])) ++ ps1
+    valOfRes Val.n (writeBytes b64 ps1 (str "/d") d (cutBy [50, 3] a1) (cutBy [] (respStatus false ps1 1))
+      (Files.initSt { ash := false, chunk := 4096, data := .bytes d, path := str "/d" })).1 = .err "command-failure" := by
+  decide +kernel
+
+example :
+    let ps1 := Params.ashPrompt
+    let t := "a\nb".toList
+    let a1 := Tty.echo false (teeLine (str "/d") ++ [13]) ++ teeErr ++ Tty.echo false (enc t) ++ ps1
+    valOfRes Val.n (writeText ps1 (str "/d") t (cutBy [9, 9, 9] a1) (cutBy [] (respStatus false ps1 1))
+      (Files.initSt { ash := true, chunk := 4096, data := .text t, path := str "/d" })).1 = .err "command-failure" := by
+  decide +kernel
+
 end C11
